@@ -226,6 +226,11 @@ func TestPropGc(t *testing.T) {
 		srcs := make([]string, n)
 		for i := range progs {
 			progs[i] = goprog.Gen(t, off)
+			if rapid.IntRange(0, 3).Draw(t, "closureform") == 0 {
+				// the same program with every function as a function literal of main
+				progs[i].Src = goprog.AsClosures(progs[i].Src)
+				progs[i].Features = append(progs[i].Features, "closure_form")
+			}
 			srcs[i] = progs[i].Src
 		}
 		ts, err := gcref.Run(srcs)
